@@ -75,7 +75,10 @@ def check(cx):
     from .C04 import rule_membership_funnel
     from .C06 import rule_channel_deletion
     rule_membership_funnel(cx, r2, only=('remove_user', 'remove_user_from_channel', 'new_on_user_join'))     # every way of leaving goes through remove_user_from_channel
-    rule_channel_deletion(cx, r2)      # which deletes the channel exactly when it became empty and is not preconfigured
+    rule_channel_deletion(cx, r2)
+    depends(cx, r2, 'C03', ('R3.3', 'R3.6'), 'a registered connection stays marked as such, so its disconnect is cleaned up',
+            only=r'writes-authenticated|authenticate-reentry')
+    depends(cx, r2, 'C02', ('R2.1',), 'only the teardown takes a user out of the registry', only=r'registry-remove|calls-remove_user')      # which deletes the channel exactly when it became empty and is not preconfigured
 
     r3 = cx.rule('R16.3', 'configured channels', floor=3, kind='shape')
     fc = cx.fn('new_from_config', 'VolatileState')
